@@ -104,6 +104,8 @@ def make_case(ctx, rng, route, norb):
         if len(op.terms) == 0:
             return None
         ham = fqe.get_sparse_hamiltonian(op, e_0=e0)
+        if len(ham.terms()) == 0:
+            return None          # operator cancelled to a constant: the pinned empty-operator behaviour (C01 finding)
         return ham, U.fermionop_terms(op), e0, rng.choice(["single", "multi"]), {"nterms": len(op.terms),
                                                                               "individual": ham.is_individual()}
     if route == "taylor-dense":
